@@ -3,7 +3,8 @@
     [w] is the word size in bits (any w >= 8; 16/32/64 in the builds), B w = 2^w, word lists are
     little-endian, [value w] is the number a list denotes, [wf w] says every word is in [0, B). *)
 From Dashu Require Import Base.Prelude Base.Words Int.RingSpec Int.RingSign Int.RingAdd Int.RingAddProofs
-  Int.RingMul Int.RingMulProofs Int.RingKaraProofs Int.RingToomProofs Int.RingDispatchProofs.
+  Int.RingMul Int.RingMulProofs Int.RingKaraProofs Int.RingToomProofs Int.RingDispatchProofs Int.RingSqrProofs
+  Int.RingOps Int.RingOpsProofs Int.RingOpsMulProofs Int.RingPowProofs Int.RingTop.
 From DashuGen Require Import SignTables Params.
 Open Scope Z_scope.
 
@@ -108,3 +109,85 @@ Theorem C01_multiply : forall w, 8 <= w -> forall a b, wf w a -> wf w b ->
     length r = (length a + length b)%nat /\ wf w r /\ value w r = value w a * value w b.
 Proof. exact multiply_source_correct. Qed.
 Print Assumptions C01_multiply.
+
+(** ---- sqr/*.rs *)
+Theorem C01_simple_square : forall w, 8 <= w -> forall a, wf w a ->
+  let r := simple_square w (repeat 0 (2 * length a)) a in
+  length r = (2 * length a)%nat /\ wf w r /\ value w r = value w a * value w a.
+Proof. exact simple_square_correct. Qed.
+Print Assumptions C01_simple_square.
+
+Theorem C01_sqr_kernel : forall w, 8 <= w -> forall a, wf w a ->
+  exists r, sqr w (Z.to_nat mul_threshold_simple) (Z.to_nat mul_threshold_karatsuba) (Z.to_nat sqr_max_len_simple) a = Ok r /\
+            length r = (2 * length a)%nat /\ wf w r /\ value w r = value w a * value w a.
+Proof. exact sqr_kernel_exact. Qed.
+Print Assumptions C01_sqr_kernel.
+
+(** ---- the operators: Small/Large arms of add_ops.rs / mul_ops.rs / pow.rs over the kernels, with the
+    thresholds of the source.  twf = inline iff <= 2 words, heap buffers normalised (what repr.rs keeps);
+    tok = words in range.  [o] ranges over the four ownership forms. *)
+Theorem C01_ubig_add : forall w, 8 <= w -> forall o x y, twf w x -> twf w y ->
+  Ok (repr_value w (repr_add w o x y)) = ubig_add_spec (repr_value w x) (repr_value w y) /\ twf w (repr_add w o x y).
+Proof. exact ubig_add_exact. Qed.
+Print Assumptions C01_ubig_add.
+
+Theorem C01_ubig_sub : forall w, 8 <= w -> forall o x y, twf w x -> twf w y ->
+  match repr_sub w o x y, ubig_sub_spec (repr_value w x) (repr_value w y) with
+  | Ok r, Ok v => repr_value w r = v /\ twf w r
+  | Panic NegativeUBig, Panic NegativeUBig => True
+  | _, _ => False
+  end.
+Proof. exact ubig_sub_exact. Qed.
+Print Assumptions C01_ubig_sub.
+
+Theorem C01_ibig_add : forall w, 8 <= w -> forall o s0 x s1 y, twf w x -> twf w y ->
+  exists r, ibig_add_asis w o s0 x s1 y = Ok r /\
+    srepr_value w r = ibig_add_spec (signed s0 (repr_value w x)) (signed s1 (repr_value w y)) /\ twf w (snd r).
+Proof. exact ibig_add_exact. Qed.
+Print Assumptions C01_ibig_add.
+
+Theorem C01_ibig_sub : forall w, 8 <= w -> forall o s0 x s1 y, twf w x -> twf w y ->
+  exists r, ibig_sub_asis w o s0 x s1 y = Ok r /\
+    srepr_value w r = ibig_sub_spec (signed s0 (repr_value w x)) (signed s1 (repr_value w y)) /\ twf w (snd r).
+Proof. exact ibig_sub_exact. Qed.
+Print Assumptions C01_ibig_sub.
+
+Theorem C01_ubig_mul : forall w, 8 <= w -> forall x y, tok w x -> tok w y ->
+  exists r, repr_mul w src_T_simple src_T_kara src_CHUNK src_SQR x y = Ok r /\
+    Ok (repr_value w r) = ubig_mul_spec (repr_value w x) (repr_value w y) /\ twf w r.
+Proof. exact ubig_mul_exact. Qed.
+Print Assumptions C01_ubig_mul.
+
+Theorem C01_ibig_mul : forall w, 8 <= w -> forall s0 x s1 y, tok w x -> tok w y ->
+  exists r, ibig_mul_asis w src_T_simple src_T_kara src_CHUNK src_SQR s0 x s1 y = Ok r /\
+    srepr_value w r = ibig_mul_spec (signed s0 (repr_value w x)) (signed s1 (repr_value w y)) /\ twf w (snd r).
+Proof. exact ibig_mul_exact. Qed.
+Print Assumptions C01_ibig_mul.
+
+Theorem C01_sqr : forall w, 8 <= w -> forall x, tok w x ->
+  exists r, repr_sqr w src_T_simple src_T_kara src_SQR x = Ok r /\ repr_value w r = sqr_spec (repr_value w x) /\ twf w r.
+Proof. exact sqr_exact. Qed.
+Print Assumptions C01_sqr.
+
+Theorem C01_ubig_cubic : forall w, 8 <= w -> forall x, tok w x ->
+  exists r, ubig_cubic_asis w src_T_simple src_T_kara src_CHUNK src_SQR x = Ok r /\
+    repr_value w r = cubic_spec (repr_value w x) /\ twf w r.
+Proof. exact ubig_cubic_exact. Qed.
+Print Assumptions C01_ubig_cubic.
+
+Theorem C01_ibig_cubic : forall w, 8 <= w -> forall s x, tok w x ->
+  exists r, ibig_cubic_asis w src_T_simple src_T_kara src_CHUNK src_SQR s x = Ok r /\
+    srepr_value w r = cubic_spec (signed s (repr_value w x)) /\ twf w (snd r).
+Proof. exact ibig_cubic_exact. Qed.
+Print Assumptions C01_ibig_cubic.
+
+Theorem C01_ubig_pow : forall w, 8 <= w -> forall x e, tok w x -> 0 <= e ->
+  exists r, ubig_pow_asis w src_T_simple src_T_kara src_CHUNK src_SQR x e = Ok r /\ repr_value w r = pow_spec (repr_value w x) e.
+Proof. exact ubig_pow_exact. Qed.
+Print Assumptions C01_ubig_pow.
+
+Theorem C01_ibig_pow : forall w, 8 <= w -> forall s x e, tok w x -> 0 <= e ->
+  exists r, ibig_pow_asis w src_T_simple src_T_kara src_CHUNK src_SQR s x e = Ok r /\
+    srepr_value w r = pow_spec (signed s (repr_value w x)) e.
+Proof. exact ibig_pow_exact. Qed.
+Print Assumptions C01_ibig_pow.
